@@ -6,27 +6,27 @@
 // commitment only after the receiver has revoked, i.e. acked it; lnd keeps at most
 // one unrevoked remote commitment, the "pending" one):
 //
-//   offered by us (we add, they remove):
-//     add:    we sign            -> (-,-,P)   only on the pending remote commitment
-//             they revoke        -> (-,R,x)   pending became current; (-,R,P) if we sign again
-//             they sign          -> (L,R,x) / (L,R,P)
-//     remove: they sign w/o it   -> (-,R,x) / (-,R,P)   gone from ours first
-//             we revoke and sign -> (-,R,-)   pending no longer has it
-//             they revoke        -> gone
-//     never:  L without R (their signature covering our add needs their revocation
-//             first), (L,R,-) (we may leave it out of a remote commitment only after
-//             having revoked the local one that still had it).
-//   received (they add, we remove):
-//     add:    they sign          -> (L,-,x) / (L,-,-)   pending (if any) predates our ack
-//             we revoke and sign -> (L,-,P)
-//             they revoke        -> (L,R,x) / (L,R,P)
-//     remove: we sign w/o it     -> (L,R,-)
-//             they revoke        -> (L,-,x) / (L,-,-)
-//             they sign          -> gone
-//     never:  R or P without L.
-//   ("x" = no pending commitment exists.) The thorough tier cross-checks this table
-//   against the patterns observed in every reachable state of a chanmc two-peer
-//   world (TestC12 section "pattern cross-check").
+//	offered by us (we add, they remove):
+//	  add:    we sign            -> (-,-,P)   only on the pending remote commitment
+//	          they revoke        -> (-,R,x)   pending became current; (-,R,P) if we sign again
+//	          they sign          -> (L,R,x) / (L,R,P)
+//	  remove: they sign w/o it   -> (-,R,x) / (-,R,P)   gone from ours first
+//	          we revoke and sign -> (-,R,-)   pending no longer has it
+//	          they revoke        -> gone
+//	  never:  L without R (their signature covering our add needs their revocation
+//	          first), (L,R,-) (we may leave it out of a remote commitment only after
+//	          having revoked the local one that still had it).
+//	received (they add, we remove):
+//	  add:    they sign          -> (L,-,x) / (L,-,-)   pending (if any) predates our ack
+//	          we revoke and sign -> (L,-,P)
+//	          they revoke        -> (L,R,x) / (L,R,P)
+//	  remove: we sign w/o it     -> (L,R,-)
+//	          they revoke        -> (L,-,x) / (L,-,-)
+//	          they sign          -> gone
+//	  never:  R or P without L.
+//	("x" = no pending commitment exists.) The thorough tier cross-checks this table
+//	against the patterns observed in every reachable state of a chanmc two-peer
+//	world (TestC12 section "pattern cross-check").
 package contractcourt
 
 import (
@@ -462,8 +462,10 @@ func TestC12(t *testing.T) {
 	base := c12ScenSet{Base: true, BreachCoop: true}
 	base3 := c12ScenSet{Base: true}
 	varsTime1 := []c12CellVar{{}, {Startup: true}, {LateFeed: true}, {Numbering: 1}, {Numbering: 1, Startup: true}}
-	varsDisp1 := []c12CellVar{{LateFeed: true}, {Numbering: 1}, {Extras: 1}, {Hist: 1}, {Hist: 3},
-		{Numbering: 1, Extras: 1, Hist: 2, LateFeed: true}}
+	varsDisp1 := []c12CellVar{{LateFeed: true}, {Numbering: 1}, {Extras: 1}, {Hist: 1}, {Hist: 2}, {Hist: 3},
+		{Numbering: 1, Extras: 1, Hist: 3, LateFeed: true}}
+	// Non-HTLC resolutions x "historical channel not found".
+	varsExtrasNoHist := []c12CellVar{{Extras: 1, Hist: 1}, {Extras: 1, Hist: 2}}
 
 	var spaces []c12Space
 	if !thorough {
@@ -479,6 +481,7 @@ func TestC12(t *testing.T) {
 			{Name: "disp/1-htlc/variants", Kind: "disp", N: 1, Alpha: with(full2, 2), Configs: cfgQ, Vars: varsDisp1, Scen: base},
 			{Name: "disp/1-htlc/faults+restarts", Kind: "disp", N: 1, Alpha: with(full2, 2), Configs: cfgQ, Vars: plain,
 				Scen: c12ScenSet{BreachCoop: true, Faults: true, Restarts: true}},
+			{Name: "disp/1-htlc/extras-x-nohist", Kind: "disp", N: 1, Alpha: with(red4, 1), Configs: cfg1, Vars: varsExtrasNoHist, Scen: base},
 			{Name: "time/2-htlc/special", Kind: "time", N: 2, Alpha: with(outReg, 2), Configs: cfg2G,
 				Vars: []c12CellVar{{}, {SameHash: true}, {LateFeed: true, SameHash: true}}},
 			{Name: "disp/2-htlc/variants", Kind: "disp", N: 2, Alpha: with(red, 1), Configs: cfg1,
@@ -501,18 +504,19 @@ func TestC12(t *testing.T) {
 				Vars: append(append([]c12CellVar{}, varsTime1...), c12CellVar{Numbering: 1, LateFeed: true})},
 			{Name: "disp/1-htlc/registry", Kind: "disp", N: 1, Alpha: with(fullReg, 3), Configs: cfgT, Vars: feeds2, Scen: base},
 			{Name: "disp/1-htlc/variants", Kind: "disp", N: 1, Alpha: with(full1, 3), Configs: cfgQ,
-				Vars: append(append([]c12CellVar{}, varsDisp1...), c12CellVar{Hist: 2}, c12CellVar{Numbering: 1, Startup: true},
+				Vars: append(append([]c12CellVar{}, varsDisp1...), c12CellVar{Numbering: 1, Startup: true},
 					c12CellVar{Extras: 1, Hist: 3}), Scen: base},
+			{Name: "disp/1-htlc/extras-x-nohist", Kind: "disp", N: 1, Alpha: with(full2, 2), Configs: cfgQ, Vars: varsExtrasNoHist, Scen: base},
 			{Name: "disp/1-htlc/faults+restarts", Kind: "disp", N: 1, Alpha: with(full1, 3), Configs: cfgT, Vars: plain,
 				Scen: c12ScenSet{BreachCoop: true, Faults: true, Restarts: true, Deep: true}},
 			{Name: "disp/1-htlc/faults+restarts/variants", Kind: "disp", N: 1, Alpha: with(full2, 2), Configs: cfgQ,
-				Vars: []c12CellVar{{Numbering: 1}, {Extras: 1, Hist: 1}, {LateFeed: true}},
+				Vars: []c12CellVar{{Numbering: 1}, {Extras: 1, Hist: 3}, {LateFeed: true}},
 				Scen: c12ScenSet{BreachCoop: true, Faults: true, Restarts: true}},
 			{Name: "time/2-htlc/special", Kind: "time", N: 2, Alpha: with(uniReg, 3), Configs: cfgGraceQ,
 				Vars: []c12CellVar{{}, {SameHash: true}, {LateFeed: true, SameHash: true}, {Numbering: 1}}},
 			{Name: "disp/2-htlc/registry", Kind: "disp", N: 2, Alpha: with(fullReg3, 1), Configs: cfg1, Vars: plain, Scen: base3},
 			{Name: "disp/2-htlc/variants", Kind: "disp", N: 2, Alpha: with(full2, 1), Configs: cfgQ,
-				Vars: []c12CellVar{{SameHash: true}, {Numbering: 1}, {Extras: 1, Hist: 1}, {LateFeed: true}}, Scen: base3},
+				Vars: []c12CellVar{{SameHash: true}, {Numbering: 1}, {Extras: 1, Hist: 3}, {LateFeed: true}}, Scen: base3},
 			{Name: "disp/2-htlc/faults+restarts", Kind: "disp", N: 2, Alpha: with(red, 1), Configs: cfg1, Vars: plain,
 				Scen: c12ScenSet{Faults: true, Restarts: true}},
 			{Name: "disp/3-htlc/restarts", Kind: "disp", N: 3, Alpha: with(red4, 1), Configs: cfg1,
@@ -536,6 +540,7 @@ func TestC12(t *testing.T) {
 		fineAll   = map[string]int{}
 		mergeMu   sync.Mutex
 		sigCount  = evid.NewCounter()
+		dimCount  = map[string]int{} // guarded by mergeMu
 		gated     sync.Map
 		capsHit   []string
 		spaceInfo []map[string]any
@@ -603,15 +608,24 @@ func TestC12(t *testing.T) {
 	}
 
 	type local struct {
-		coarse, fine map[string]int
-		samples      int
+		coarse, fine, dims map[string]int
+		samples            int
 	}
 	exec := func(j *c12Job, lc *local) {
 		cell := j.cell()
 		st.cells.Add(1)
+		dims := cell.vtags()
+		for _, h := range cell.HTLCs {
+			if h.Pre == c12PreHold || h.Pre == c12PreNoInv {
+				dims = append(dims, fmt.Sprintf("registry-answer-%d", h.Pre))
+			}
+		}
 		if j.kind == "time" {
 			sc := timeScenario(&cell)
 			res, obs, viols := runTime(cell, sc, nil)
+			for _, d := range dims {
+				lc.dims["time:"+d]++
+			}
 			st.execs.Add(1)
 			st.timeExecs.Add(1)
 			st.advances.Add(int64(len(obs.States)))
@@ -631,6 +645,15 @@ func TestC12(t *testing.T) {
 			res, obs, viols := runDisp(cell, sc, nil)
 			st.execs.Add(1)
 			st.dispExecs.Add(1)
+			for _, d := range dims {
+				lc.dims["disp:"+d]++
+			}
+			if sc.Fault != "" {
+				lc.dims["disp:fault="+sc.Fault]++
+			}
+			if sc.Restart != "" {
+				lc.dims["disp:restart="+sc.Restart]++
+			}
 			st.advances.Add(int64(len(obs.States)))
 			if res.Skipped != "" {
 				st.skippedDisp.Add(1)
@@ -670,7 +693,7 @@ func TestC12(t *testing.T) {
 			wg.Add(1)
 			go func() {
 				defer wg.Done()
-				lc := &local{coarse: map[string]int{}, fine: map[string]int{}}
+				lc := &local{coarse: map[string]int{}, fine: map[string]int{}, dims: map[string]int{}}
 				for j := range jobs {
 					exec(j, lc)
 				}
@@ -680,6 +703,9 @@ func TestC12(t *testing.T) {
 				}
 				for k, v := range lc.fine {
 					fineAll[k] += v
+				}
+				for k, v := range lc.dims {
+					dimCount[k] += v
 				}
 				mergeMu.Unlock()
 			}()
@@ -729,13 +755,29 @@ func TestC12(t *testing.T) {
 		}
 	}
 
+	var pipeExecs, pipeNontrivial int64
+	if o := os.Getenv("C12_ONLY"); (o == "" || o == "pipe") && time.Now().Before(deadline) {
+		mergeMu.Lock()
+		pc, pf := map[string]int{}, map[string]int{}
+		mergeMu.Unlock()
+		pipeExecs, pipeNontrivial = c12PipeSpaces(run, thorough, deadline, &spaceInfo, &capsHit, pc, pf, samples, func(sig string) { sigCount.Add(sig) })
+		for k, v := range pc {
+			coarseAll[k] += v
+		}
+		for k, v := range pf {
+			fineAll[k] += v
+		}
+	}
 	if o := os.Getenv("C12_ONLY"); thorough && (o == "" || o == "xcheck") {
 		c12CrossCheckPatterns(run, &spaceInfo, &capsHit)
 	}
 
 	run.Assumptions = append(run.Assumptions,
 		"the ChannelArbitrator is not started: advanceState is called synchronously with the trigger, height and CommitSet that channelAttendant/handle*CloseEvent would pass; goroutine interleavings inside the arbitrator are out of scope",
-		"ContractResolutions are synthesised: one Incoming/OutgoingHtlcResolution per HTLC with an output on the confirmed commitment (second-level txs only on the local commitment); no commit/anchor resolution",
+		"lattice spaces: ContractResolutions are synthesised: one Incoming/OutgoingHtlcResolution per HTLC with an output on the confirmed commitment (second-level txs only on the local commitment), with and without a commit (to-self) and an anchor resolution; pipe spaces: CommitSet and resolutions are the ones a real chainWatcher (handleCommitSpend) builds for the stored commitment transaction of a live two-peer channel (engine chanmc), handed to handleLocal/RemoteForceCloseEvent",
+		"restarts are modelled at quiescent points only (between two calls the attendant goroutine makes; never between a side effect and the state commit of one step - that is C13): a new instance on the same log, start state from the log, progressStateMachineAfterRestart called synchronously; Start()'s own statements (startTimestamp, goroutine launch) and the ShortChanID signal update are not executed",
+		"go-to-chain faults are the documented outcomes of ForceCloseChan (ErrForceCloseLocalDataLoss) and PublishTx (ErrDoubleSpend, ErrMempoolFee, other error); log / database write failures are not injected",
+		"broadcast deltas are lnd constants (10/10); explored {1,5,10}^2; grace period {1h, 0 (default)} with uptime below / at / above it",
 		"launched resolvers park on a silent chain notifier and sweeper; only the arbitrator's own dispositions (before any chain event reaches a resolver) are observed",
 		"membership patterns over (local, remote, remote-pending) are restricted to the protocol-reachable ones (table and derivation in c12_test.go); dust-ness of same-direction HTLCs is consistent with one threshold per commitment",
 		"breach and cooperative-close confirmations are executed for every cell (panic/error freedom) but sentence 2/3 of the property are judged only for the three valid commitments, as the statement says",
@@ -748,23 +790,25 @@ func TestC12(t *testing.T) {
 	}
 	sort.Strings(keys)
 	cov := map[string]any{
-		"evaluations":         int(st.execs.Load()),
-		"distinct_nontrivial": int(st.nontrivial.Load()),
-		"rule": "cells = multisets of per-HTLC variants (direction x reachable membership pattern x dust per commitment x preimage knowledge x forwarded x expiry class) x pending-commitment-exists x (delta_out, delta_in, grace) x feed; every cell is run once per scenario (time: ascending block heights around every cutoff; disp: {none,chain,user} x {local,remote,pending,breach,coop} confirmation); each (cell, scenario) is enumerated exactly once, so executions are pairwise distinct; non-trivial = the arbitrator took an observable action (force close, upstream fail, final outcome or resolver)",
-		"samples":                  samples.List(),
-		"exhaustive":               len(capsHit) == 0 && st.nondet.Load() == 0,
-		"cells":                    int(st.cells.Load()),
-		"timeliness_executions":    int(st.timeExecs.Load()),
-		"disposition_executions":   int(st.dispExecs.Load()),
-		"disposition_skipped":      int(st.skippedDisp.Load()),
-		"advance_state_calls":      int(st.advances.Load()),
-		"violating_executions":     int(st.violExecs.Load()),
+		"evaluations":                    int(st.execs.Load() + pipeExecs),
+		"distinct_nontrivial":            int(st.nontrivial.Load() + pipeNontrivial),
+		"pipe_executions":                int(pipeExecs),
+		"rule":                           "cells = multisets of per-HTLC variants (direction x reachable membership pattern x dust per commitment x preimage knowledge {none, beacon, invoice, invoice-without-preimage, no-invoices-created} x forwarded x expiry class) x pending-commitment-exists x (delta_out, delta_in, grace period/uptime) x cell dimensions (feed {updates, start-up, late}, numbering {disjoint, zero-based}, non-HTLC resolutions, historical-channel answer, shared payment hash); every cell is run once per scenario (time: ascending block heights around every cutoff; disp: {none,chain,user} x {local,remote,pending,breach,coop} confirmation x go-to-chain fault {none, dataloss, doublespend, mempoolfee, pubfail} x restart {none, pre, redeliver, unmarked}); pipe: every distinct state of the channel worlds x party x {none,user(,chain)} x commitment x preimage knowledge; each (cell, scenario) of a space is enumerated exactly once (the audit spaces overlap the original ones only in their default points); non-trivial = the arbitrator took an observable action (force close, upstream fail, final outcome or resolver)",
+		"dimension_executions":           dimCount,
+		"samples":                        samples.List(),
+		"exhaustive":                     len(capsHit) == 0 && st.nondet.Load() == 0,
+		"cells":                          int(st.cells.Load()),
+		"timeliness_executions":          int(st.timeExecs.Load()),
+		"disposition_executions":         int(st.dispExecs.Load()),
+		"disposition_skipped":            int(st.skippedDisp.Load()),
+		"advance_state_calls":            int(st.advances.Load()),
+		"violating_executions":           int(st.violExecs.Load()),
 		"map_order_dependent_signatures": int(st.mapOrder.Load()),
-		"violation_signature_hits": sigCount.Map(),
-		"distinct_outcome_classes": len(fineAll),
-		"outcome_classes":          outcomes,
-		"spaces":                   spaceInfo,
-		"workers":                  workers,
+		"violation_signature_hits":       sigCount.Map(),
+		"distinct_outcome_classes":       len(fineAll),
+		"outcome_classes":                outcomes,
+		"spaces":                         spaceInfo,
+		"workers":                        workers,
 	}
 	if len(capsHit) > 0 {
 		cov["caps_hit"] = capsHit
@@ -784,6 +828,24 @@ func c12ReplayFile(t *testing.T, path string) {
 	b, err := os.ReadFile(path)
 	if err != nil {
 		t.Fatalf("replay: %v", err)
+	}
+	var probe struct {
+		Replay struct {
+			Pipe *c12PipeCase `json:"pipe"`
+		} `json:"replay"`
+	}
+	if json.Unmarshal(b, &probe) == nil && probe.Replay.Pipe != nil {
+		if err := c12ReplayPipe(run, b); err != nil {
+			t.Fatalf("replay: %v", err)
+		}
+		cov := map[string]any{
+			"evaluations": 1, "distinct_nontrivial": 2, "rule": "replay of one recorded pipe execution",
+			"samples": []any{probe.Replay}, "exhaustive": false,
+		}
+		if run.Finish(cov) != 0 {
+			t.Fail()
+		}
+		return
 	}
 	var f struct {
 		Signature string    `json:"signature"`
